@@ -1,0 +1,85 @@
+//go:build verif
+
+// Round 5, area I: contract for the start-up of nsq_to_nsq (C20): flag validation, producers, consumers and their handlers in main.
+// Comment-only file. Assumed library contracts: .trusted/r5I.spec (package flag, go-nsq Config), relay.spec.
+
+package main
+
+// log.Fatal / log.Fatalf print and call os.Exit(1): they do not return (assumed at calls from this package).
+//@ extern[in github.com/nsqio/nsq/apps/nsq_to_nsq] log.Fatal(v)
+//@   ensures[does-not-return] false
+//@   modifies
+//@ extern[in github.com/nsqio/nsq/apps/nsq_to_nsq] log.Fatalf(format, v)
+//@   ensures[does-not-return] false
+//@   modifies
+// go-nsq set-up as seen from this package (ASSUMED library contracts; the calls are recorded):
+//   NewProducer: a producer or an error. NewConsumer: a consumer or an error - main must hand it VALID topic / channel names and a
+//   configuration carrying --max-in-flight. AddConcurrentHandlers: go-nsq starts `concurrency` goroutines calling handler.HandleMessage
+//   for every message, so what TopicHandler.HandleMessage / PublishHandler.HandleMessage ASSUME (validRelayPH, a producer for every
+//   destination address, initialised filter flags) and the validity of the destination topic must hold BEFORE this call: preconditions
+//   of the extern = obligations of main(). ConnectToNSQDs / ConnectToNSQLookupds: messages start to flow - only to a consumer that has
+//   its handler (set ghost r5INHandled).
+//@ ghost r5INConsumers int
+//@ ghost r5INHandlerAdds int
+//@ ghost r5INHandled set[*nsq.Consumer]
+//@ ghost r5INConnects int
+//@ extern[in github.com/nsqio/nsq/apps/nsq_to_nsq] github.com/nsqio/go-nsq.NewProducer(addr, config) (p, err)
+//@   requires config != nil
+//@   ensures[producer-or-error] (err == nil) <==> (p != nil)
+//@   ensures[new] p != nil ==> fresh(p)
+//@   modifies
+//@ extern[in github.com/nsqio/nsq/apps/nsq_to_nsq] github.com/nsqio/go-nsq.NewConsumer(t, c, config) (r, err)
+//@   requires[valid-source-names] validName(t) && validName(c)
+//@   requires[max-in-flight-from-the-flag] config != nil && config.MaxInFlight == *maxInFlight
+//@   ensures[consumer-or-error] (err == nil) <==> (r != nil)
+//@   ensures[new] r != nil ==> fresh(r)
+//@   modifies r5INConsumers
+//@   onreturn r5INConsumers := r5INConsumers + 1
+//@ pred r5INProducerPerAddress(ph *PublishHandler) := (ph.producers != nil && (forall i int :: {ph.addresses[i]} 0 <= i && i < len(ph.addresses) ==> has(ph.producers, ph.addresses[i]) && ph.producers[ph.addresses[i]] != nil))
+//@ extern[in github.com/nsqio/nsq/apps/nsq_to_nsq] (*github.com/nsqio/go-nsq.Consumer).AddConcurrentHandlers(r, handler, concurrency)
+//@   requires r != nil
+//@   requires[a-topic-handler-around-a-valid-publish-handler] dyntype(handler) == typetag("*TopicHandler") && unbox(handler, "*TopicHandler") != nil && validRelayPH(unbox(handler, "*TopicHandler").publishHandler)
+//@   requires[a-producer-per-destination] r5INProducerPerAddress(unbox(handler, "*TopicHandler").publishHandler)
+//@   requires[destinations-are-the-flag-values] unbox(handler, "*TopicHandler").publishHandler.addresses == destNsqdTCPAddrs && unbox(handler, "*TopicHandler").publishHandler.respChan != nil && unbox(handler, "*TopicHandler").publishHandler.perAddressStatus != nil
+//@   requires[destination-topic-valid] validName(unbox(handler, "*TopicHandler").destinationTopic) && (*destTopic != "" ==> unbox(handler, "*TopicHandler").destinationTopic == *destTopic)
+//@   requires[filter-flags-initialised] requireJSONField != nil && requireJSONValue != nil
+//@   requires[one-handler-goroutine-per-destination] concurrency == len(destNsqdTCPAddrs)
+//@   modifies r5INHandlerAdds, r5INHandled
+//@   onreturn r5INHandlerAdds := r5INHandlerAdds + 1
+//@   onreturn r5INHandled := setadd(r5INHandled, r)
+//@ extern[in github.com/nsqio/nsq/apps/nsq_to_nsq] (*github.com/nsqio/go-nsq.Consumer).ConnectToNSQDs(r, addrs) (err)
+//@   requires r != nil
+//@   requires[handler-first] setin(r5INHandled, r)
+//@   modifies r5INConnects
+//@   onreturn r5INConnects := r5INConnects + 1
+//@ extern[in github.com/nsqio/nsq/apps/nsq_to_nsq] (*github.com/nsqio/go-nsq.Consumer).ConnectToNSQLookupds(r, addrs) (err)
+//@   requires r != nil
+//@   requires[handler-first] setin(r5INHandled, r)
+//@   modifies r5INConnects
+//@   onreturn r5INConnects := r5INConnects + 1
+//@ extern[in github.com/nsqio/nsq/apps/nsq_to_nsq] github.com/bitly/go-hostpool.New(hosts) (p)
+//@   ensures p != nil
+//@   modifies
+//@ extern[in github.com/nsqio/nsq/apps/nsq_to_nsq] github.com/bitly/go-hostpool.NewEpsilonGreedy(hosts, decay, calc) (p)
+//@   ensures p != nil
+//@   modifies
+//@ benign github.com/bitly/timer_metrics.NewTimerMetrics
+
+// main (C20): --topic (each), --channel and a given --destination-topic must be valid names, at least one destination address is
+// required, a failed check is fatal before anything is created; one producer per destination address (a failed constructor is fatal);
+// every consumer is created with --max-in-flight in its configuration and gets a TopicHandler around the one PublishHandler, with a
+// valid destination topic, BEFORE it is connected; every consumer of the list is connected.
+//@ func main()
+//@   props C20
+//   (Go package initialisation: the package-level flag variables are set before main runs)
+//@   requires[flags-initialised] showVersion != nil && channel != nil && destTopic != nil && maxInFlight != nil && statusEvery != nil && mode != nil && requireJSONField != nil && requireJSONValue != nil
+//@   ensures[no-publish-here] asyncCalls == old(asyncCalls) && pubCount == old(pubCount)
+//@   loop 0
+//@     invariant[topics-so-far-valid] forall i int :: {topics[i]} 0 <= i && i <= rangeindex && i < len(topics) ==> validName(topics[i])
+//@     invariant[flags] len(topics) != 0 && *channel != "" && cCfg != nil && pCfg != nil
+//@   loop 1
+//@     invariant[a-producer-per-address-so-far] producers != nil && (forall i int :: {destNsqdTCPAddrs[i]} 0 <= i && i <= rangeindex && i < len(destNsqdTCPAddrs) ==> has(producers, destNsqdTCPAddrs[i]) && producers[destNsqdTCPAddrs[i]] != nil)
+//@     invariant[validated] (forall i int :: {topics[i]} 0 <= i && i < len(topics) ==> validName(topics[i])) && validName(*channel) && (*destTopic != "" ==> validName(*destTopic)) && len(destNsqdTCPAddrs) != 0 && cCfg != nil && pCfg != nil && cCfg.MaxInFlight == *maxInFlight && (selectedMode == ModeRoundRobin || selectedMode == ModeHostPool)
+//@   loop 3
+//@     invariant[every-consumer-so-far-has-its-handler] forall i int :: {consumerList[i]} 0 <= i && i < len(consumerList) ==> consumerList[i] != nil && setin(r5INHandled, consumerList[i])
+//@     invariant[one-consumer-per-topic-so-far] len(consumerList) == rangeindex + 1
